@@ -85,6 +85,16 @@ func H_C08_skip() {
 	vxrt.TestSources(vxrt.Dir()+"/g_test.go", "TestG")
 	cg := WithConfig(Dir(dir), Filename("g_test"))
 
+	// a standalone snapshot and a custom-named multi-entry file owned by TestC
+	// (known finding K3: under -run such files of unselected tests are not protected)
+	k3 := vxrt.Param("known_K3", 1) == 0
+	if k3 {
+		writeFile(dir+"/TestC_1.snap", "standalone-of-C")
+		writeFile(dir+"/custom.snap", frame("TestC - 1", "custom-of-C"))
+	}
+	cCustom := WithConfig(Dir(dir), Filename("custom"), Update(false))
+	cStand := WithConfig(Dir(dir), Update(false))
+
 	mode := vxrt.Choice("mode", 2)
 	ran := map[string]bool{}
 	c := WithConfig(Dir(dir), Filename("f_test"), Update(false))
@@ -168,6 +178,10 @@ func H_C08_skip() {
 				continue
 			}
 			c.MatchSnapshot(t, bodies[tn])
+			if k3 && tn == "TestC" {
+				cCustom.MatchSnapshot(t, "custom-of-C")
+				cStand.MatchStandaloneSnapshot(t, "standalone-of-C")
+			}
 			t.end()
 			ran[tn] = true
 			vxrt.Assert(len(t.errors) == 0, "setup:passes")
@@ -192,6 +206,10 @@ func H_C08_skip() {
 
 	Clean(nil)
 	out := vxrt.Stdout()
+	if k3 && mode == 1 && !ran["TestC"] {
+		vxrt.Assert(readFile(dir+"/TestC_1.snap") == "standalone-of-C", "C08:standalone-file-of-unselected-test-kept")
+		vxrt.Assert(readFile(dir+"/custom.snap") == frame("TestC - 1", "custom-of-C"), "C08:custom-named-file-of-unselected-test-kept")
+	}
 	if mode == 1 && !pRanC {
 		vxrt.Assert(readFile(ppath) == frame("TestP/c - 1", "pc"), "C08:file-of-filtered-out-subtest-kept")
 		vxrt.Assert(!strings.Contains(out, "p_test.snap"), "C08:file-of-filtered-out-subtest-not-listed")
